@@ -924,3 +924,39 @@ Proof.
   apply andb_prop in H as [H H4]. apply andb_prop in H as [H H3]. apply andb_prop in H as [H1 H2].
   split; [now apply neutralb_ok|]. split; [now apply negb_true_iff in H2|]. split; [now apply Nat.leb_le|now apply text_okb_ok].
 Qed.
+
+(* ================= I. renders AND fits ================= *)
+Lemma needed_width_for_pos sty l : 1 <= needed_width_for sty l.
+Proof. unfold needed_width_for. generalize (align_vis sty l 0). intros off. induction l; cbn [fold_right]; lia. Qed.
+
+Theorem page_renders_plain_lemma W f l : f_kind f = FPlain -> needed_width_for (f_styles f) l <= W -> layout_ok (f_styles f) W l ->
+  exists s, render_page W f l = Ok s.
+Proof. intros Hk. apply page_renders. congruence. Qed.
+Theorem page_renders_ansi_lemma W f l : is_ansi f -> needed_width_for (f_styles f) l <= W -> layout_ok (f_styles f) W l ->
+  exists s, render_page W f l = Ok s.
+Proof. intros Hk. apply page_renders. unfold is_ansi in Hk. destruct (f_kind f); [discriminate|contradiction|contradiction]. Qed.
+
+Theorem page_renders_and_fits_plain_lemma W f l : f_kind f = FPlain -> one_line_labels l ->
+  needed_width_for (f_styles f) l <= W -> layout_ok (f_styles f) W l ->
+  exists s, render_page W f l = Ok s /\ Forall (fun ln => zlen ln <= W - 1) (split_on 10%N s).
+Proof.
+  intros Hk Hl HW Hok. destruct (page_renders_plain_lemma W f l Hk HW Hok) as [s Hs]. exists s. split; [exact Hs|].
+  eapply page_fits_plain_lemma; eauto. pose proof (needed_width_for_pos (f_styles f) l). lia.
+Qed.
+Theorem page_renders_and_fits_ansi_lemma W f l : is_ansi f -> one_line_labels l -> clean_layout l ->
+  needed_width_for (f_styles f) l <= W -> layout_ok (f_styles f) W l ->
+  exists s, render_page W f l = Ok s /\ Forall (fun ln => zlen (strip_sgr ln) <= W - 1) (split_on 10%N s).
+Proof.
+  intros Hk Hl Hc HW Hok. destruct (page_renders_ansi_lemma W f l Hk HW Hok) as [s Hs]. exists s. split; [exact Hs|].
+  eapply page_fits_ansi_clean_lemma; eauto. pose proof (needed_width_for_pos (f_styles f) l). lia.
+Qed.
+(* the ANSI formatter renders a page exactly when the plain formatter with the same styles and stack does *)
+Lemma emit_ok_iff f m : is_ansi f ->
+  (exists x, emit f m = Ok x) <-> (exists x, emit (as_plain f) m = Ok x).
+Proof.
+  intros Hk. unfold is_ansi in Hk. unfold emit, as_plain. cbn [f_kind]. destruct (f_kind f) eqn:E; [|contradiction|contradiction].
+  unfold format, remove_format. rewrite E. cbn [f_kind f_styles f_stack].
+  pose proof (colorize_effect (f_styles f) true (f_stack f) m) as H1. pose proof (colorize_effect (f_styles f) false (f_stack f) m) as H2.
+  destruct (colorize (f_styles f) true (f_stack f) m) as [x1|k1], (colorize (f_styles f) false (f_stack f) m) as [x2|k2]; cbn [bind];
+    split; intros [x Hx]; try discriminate; eauto; congruence.
+Qed.
